@@ -53,6 +53,13 @@ impl Ntv2Grid {
             let (name, parent, grid) = subgrid::ntv2_subgrid(&parser, offset)?;
             offset += HEADER_SIZE + grid.grid.len() / 2 * NODE_SIZE;
 
+            // Sub grid names must be unique, and `NONE` is reserved for "no parent".
+            // Otherwise the parent/child relation may contain cycles, which
+            // `find_grid` would follow forever
+            if name == "NONE" || subgrids.contains_key(&name) {
+                return Err(Error::Invalid("Bad sub grid name".to_string()));
+            }
+
             // The NTv2 spec does not guarantee the order of subgrids, so we must create
             // a lookup table from parent to children to make it possible for `find_grid` to
             // have a start point for working out which subgrid, if any, contains the point
@@ -61,6 +68,11 @@ impl Ntv2Grid {
                 .entry(parent)
                 .or_insert_with(Vec::new)
                 .push(name);
+        }
+
+        // `find_grid` starts its search at the root grids
+        if !lookup_table.contains_key("NONE") {
+            return Err(Error::Invalid("No root sub grid".to_string()));
         }
 
         Ok(Self {
